@@ -222,8 +222,8 @@ impl Proc {
     }
 
     /// returns (key fingerprint just before the expansion, outcome text)
-    pub fn expand(&mut self, w: u64, id: u64) -> HResult<(u64, String)> {
-        self.send(&format!("X {w} {id}\n"))?;
+    pub fn expand(&mut self, w: u64, id: u64, fmt: u64) -> HResult<(u64, String)> {
+        self.send(&format!("X {w} {id} {fmt}\n"))?;
         let l = self.line()?;
         let parts: Vec<&str> = l.split(' ').collect();
         if parts.len() != 3 || parts[0] != "R" {
